@@ -339,7 +339,7 @@ fn emit_fn<'tcx>(
     o.set("path", J::s(def_path(tcx, did)));
     o.set("kind", J::s(format!("{:?}", kind)));
     o.set("span", J::s(span_str(tcx, tcx.def_span(did))));
-    o.set("name", J::s(tcx.item_name(did).as_str()));
+    o.set("name", J::s(tcx.opt_item_name(did).map(|s| s.to_string()).unwrap_or_else(|| "{closure}".to_string())));
     let reachable = match kind {
         DefKind::Fn | DefKind::AssocFn => vis.is_reachable(ldid),
         _ => false,
